@@ -384,7 +384,8 @@ def pair(rng, minor=None):
 
 
 def triple(rng, minor=None, minor_change=False):
-    base = gen_notebook(rng, minor)
+    # one notebook in twelve is long (boundaries, chunks and indices beyond a handful of cells)
+    base = gen_notebook(rng, minor, ncells=rng.choice([16, 20, 33, 41]) if rng.random() < 0.08 else None)
     if rng.random() < 0.04:
         inflate(rng, base)
     l, kl = edit_notebook(rng, base, minor_change=minor_change)
@@ -409,7 +410,7 @@ def fixture_notebooks():
 # ------------------------------------------------------------------ targeted three-way scenarios
 SCENARIOS = ['concurrent-insert', 'concurrent-insert', 'delete-vs-edit', 'same-line', 'different-lines', 'both-outputs', 'both-metadata',
              'insert-next-to-edit', 'delete-vs-transient', 'same-change', 'both-nbmeta', 'both-attachments', 'minor', 'replace-vs-transient', 'remove-output-vs-transient', 'dup-around-shared',
-             'replace-vs-insert', 'two-conflict-regions', 'output-mixed-keys', 'minor-down', 'remove-key-vs-transient', 'stale-conflict-record', 'meta-nested-mixed', 'same-inline-edit-plus-insert', 'exotic-text-both', 'similar-insert-attachments', 'concurrent-insert-uneven']
+             'replace-vs-insert', 'two-conflict-regions', 'output-mixed-keys', 'minor-down', 'remove-key-vs-transient', 'stale-conflict-record', 'meta-nested-mixed', 'same-inline-edit-plus-insert', 'exotic-text-both', 'similar-insert-attachments', 'concurrent-insert-uneven', 'both-cell-ids', 'line-insert-vs-remove', 'same-change-alias']
 
 
 def similar_cell(rng, c, used):
@@ -713,11 +714,67 @@ def triple_scenario(rng, minor=None, first=None):
                     ca['source'] = ''.join(lines[:k] + ['@@@@ %d ~~~~ !!!!\n' % rng.randrange(99)] + lines[k + 1:])
                     cb['source'] = ''.join(lines[:k] + ['zzzz = qqqq(%d)\n' % rng.randrange(99)] + lines[k:])
             break
+        elif sc == 'same-change-alias':
+            # both sides make "the same" change, but the new values are equal only for Python's == (1 / True / 1.0)
+            va, vb = rng.choice([(1, True), (True, 1), (0, False), (2, 2.0), (1.0, 1)])
+            where = rng.choice(['nbmeta', 'cellmeta'])
+            if where == 'nbmeta' or not common:
+                base['metadata']['enabled'] = 5
+                l['metadata']['enabled'] = va
+                r['metadata']['enabled'] = vb
+            else:
+                i = rng.choice(common)
+                base['cells'][i]['metadata']['level'] = 7
+                l['cells'][i]['metadata']['level'] = va
+                r['cells'][i]['metadata']['level'] = vb
+        elif sc == 'both-cell-ids':
+            # both sides give one cell another id (or both add one where the base, an older format, has none)
+            i = rng.choice(common)
+            if 'id' in base['cells'][i]:
+                l['cells'][i]['id'] = new_id(rng, used)
+                r['cells'][i]['id'] = new_id(rng, used)
+            elif base['nbformat_minor'] < 5:
+                for nb in (l, r):
+                    nb['nbformat_minor'] = 5
+                    for c in nb['cells']:
+                        c.setdefault('id', new_id(rng, used))
+        elif sc == 'line-insert-vs-remove':
+            # inside one list below a cell (source lines or outputs): one side inserts an item directly in front of an item
+            # the other side removes or changes
+            i = rng.choice(common)
+            c = base['cells'][i]
+            a, b_ = (l, r) if rng.random() < 0.5 else (r, l)
+            if c['cell_type'] == 'code' and c['outputs'] and rng.random() < 0.4:
+                k = rng.randrange(len(c['outputs']))
+                a['cells'][i]['outputs'].insert(k, {'output_type': 'stream', 'name': 'stdout', 'text': 'inserted %d\n' % rng.randrange(99)})
+                if rng.random() < 0.5:
+                    del b_['cells'][i]['outputs'][k]
+                else:
+                    o = b_['cells'][i]['outputs'][k]
+                    if o['output_type'] == 'stream':
+                        o['text'] = o['text'] + 'changed\n'
+                    else:
+                        del b_['cells'][i]['outputs'][k]
+            else:
+                lines = c['source'].splitlines(True)
+                while len(lines) < 4:
+                    lines.append('pad_%d = %d\n' % (len(lines), rng.randrange(99)))
+                lines = [x if x.endswith('\n') else x + '\n' for x in lines]
+                for nb in (base, l, r):
+                    nb['cells'][i]['source'] = ''.join(lines)
+                k = rng.randrange(1, len(lines) - 1)
+                a['cells'][i]['source'] = ''.join(lines[:k] + ['NEW_%d = 1\n' % rng.randrange(99)] + lines[k:])
+                if rng.random() < 0.5:
+                    b_['cells'][i]['source'] = ''.join(lines[:k] + lines[k + 1:])
+                else:
+                    b_['cells'][i]['source'] = ''.join(lines[:k] + [lines[k].rstrip('\n') + ' # edited\n'] + lines[k + 1:])
+            break
         elif sc == 'two-conflict-regions':
             # both sides rewrite two non-adjacent lines of one cell differently
             i = rng.choice(common)
             lines = base['cells'][i]['source'].splitlines(True)
-            while len(lines) < 5:
+            target = rng.choice([5, 6, 10, 14, 20])      # long cells: the rewritten lines end up in separate hunks of the text merge helpers
+            while len(lines) < target:
                 lines.append('keep_%d = %d\n' % (len(lines), rng.randrange(99)))
             lines = [x if x.endswith('\n') else x + '\n' for x in lines]
             base['cells'][i]['source'] = ''.join(lines)
@@ -728,6 +785,8 @@ def triple_scenario(rng, minor=None, first=None):
                 ls = list(lines)
                 ls[k1] = '%s_first = %d\n' % (tag.lower(), rng.randrange(99))
                 ls[k2] = '%s_last = %d\n' % (tag.lower(), rng.randrange(99))
+                if len(ls) >= 14 and rng.random() < 0.5:
+                    ls[len(ls) // 2] = '%s_middle = %d\n' % (tag.lower(), rng.randrange(99))
                 nb['cells'][i]['source'] = ''.join(ls)
             break
         elif sc == 'output-mixed-keys':
